@@ -1,3 +1,85 @@
+(** C06 — core evaluator: lexical scoping, closures, left-to-right single evaluation.
+    Statements only; proofs in proofs/EnvProofs.v and proofs/Balanced.v.  The "standard semantics"
+    of a language whose scopes are mutable frames is the environment model; the laws below
+    characterise it for all programs/states.  Left-to-right single evaluation of operands is the
+    definition of [eval_args] (= [mapM ev], one call per operand, in order); that the
+    implementation agrees is decided by the differential check against the reference interpreter. *)
 From WalModel Require Import Eval.
-Theorem tmp : True. Proof. exact I. Qed.
-Print Assumptions tmp.
+From WalModel.proofs Require Import Balanced EnvProofs.
+Local Open Scope Z_scope.
+
+(** a function body sees the bindings of its definition site, not of its caller: the body runs
+    in a fresh frame whose parent is the captured frame; the caller's frame is current again after *)
+Theorem call_lexical : forall ev, (forall e, good (ev e)) ->
+  forall cenv ps body nm args st r st',
+  eval_closure ev (VClos cenv (VList true ps) body nm) args st = Ok r st' ->
+  exists s_pre s_post,
+    let fid := List.length (st_frames st) in
+    nth_error (parents s_pre) fid = Some (Some cenv) /\
+    st_cur s_pre = st_cur st /\
+    ev body (upd_cur s_pre fid) = Ok r s_post /\
+    st' = upd_cur s_post (st_cur st) /\
+    List.length ps = List.length args.
+Proof. exact call_is_lexical. Qed.
+Print Assumptions call_lexical.
+
+(** parameters and inner bindings shadow outer ones: lookup returns the innermost binding on the
+    static chain *)
+Theorem shadowing : forall fuel st id name fid,
+  find_frame fuel st id name = Some fid ->
+  exists k, hop st id k = Some fid /\ binds st fid name = true /\ (k < fuel)%nat /\
+            forall j fj, (j < k)%nat -> hop st id j = Some fj -> binds st fj name = false.
+Proof. exact lookup_innermost. Qed.
+Print Assumptions shadowing.
+
+(** let bindings are established sequentially ... *)
+Theorem let_sequential : forall ev k1 e1 k2 e2 body st v1 s1,
+  let fid := List.length (st_frames st) in
+  let st0 := upd_cur (upd_frames st (st_frames st +++ [mkFrame [] (Some (st_cur st))])) fid in
+  ev e1 st0 = Ok v1 s1 ->
+  op_let ev [WL [WL [VSym k1 None; e1]; WL [VSym k2 None; e2]]; body] st =
+  (env_define fid k1 v1 ;;; v2 <- ev e2 ;; env_define fid k2 v2 ;;;
+   vs <- eval_args ev [body] ;; r <- last_or_index_error vs ;;
+   modify (fun s => upd_cur s (st_cur st)) ;;; ret r) s1.
+Proof. exact let_is_sequential. Qed.
+Print Assumptions let_sequential.
+
+(** ... and vanish with the let; likewise every call: a completed evaluation is back in the
+    environment it started in, and frames are never dropped or re-parented (so a binding captured
+    by several closures is one shared frame for all of them) *)
+Theorem scopes_vanish_and_frames_persist : forall lf fuel e st v st',
+  eval lf fuel e st = Ok v st' ->
+  st_cur st' = st_cur st /\ c_stack (st_cont st') = c_stack (st_cont st) /\
+  exists extra, parents st' = parents st +++ extra.
+Proof. exact eval_balanced. Qed.
+Print Assumptions scopes_vanish_and_frames_persist.
+
+(** assignment updates the nearest enclosing binding: the frame written is the one lookup finds,
+    and a later read through any chain reaching that frame sees the new value *)
+Theorem assignment_updates_found_binding : forall id n v st st',
+  env_write id n v st = Ok tt st' -> env_read id n st' = Ok v st'.
+Proof. exact ScopeProofs.write_then_read. Qed.
+Print Assumptions assignment_updates_found_binding.
+
+(** errors instead of values *)
+Theorem unbound_name_raises : forall id name st,
+  lookup_frame st id name = None -> env_read id name st = Er EEval st.
+Proof. exact unbound_read_is_error. Qed.
+Print Assumptions unbound_name_raises.
+
+Theorem assigning_undefined_raises : forall ev kn e v st st1,
+  ev e st = Ok v st1 -> lookup_frame st1 (st_cur st1) kn = None ->
+  op_set ev [WL [VSym kn None; e]] st = Er EEval st1.
+Proof. exact set_undefined_is_error. Qed.
+Print Assumptions assigning_undefined_raises.
+
+Theorem redefinition_raises : forall id name v st f,
+  get_frame st id = Some f -> amem name (f_binds f) = true -> env_define id name v st = Er EEval st.
+Proof. exact redefine_is_error. Qed.
+Print Assumptions redefinition_raises.
+
+Theorem wrong_arity_raises : forall ev cenv ps body nm args st,
+  List.length ps <> List.length args ->
+  exists st', eval_closure ev (VClos cenv (VList true ps) body nm) args st = Er EEval st'.
+Proof. exact arity_mismatch_is_error. Qed.
+Print Assumptions wrong_arity_raises.
